@@ -72,10 +72,19 @@ def gen_pair(tp: S.Tape, classes=("MG", "SMG", "CRG", "SCRG", "SMG", "SCRG"),
         m2 = S.gen_model(tp, cls, **kw)
         return {"src": src, "a": S.shuffled_recipe(tp, m1),
                 "b": S.shuffled_recipe(tp, m2), "kind": None}
+    if src == "ring" and tp.chance(60):
+        m1, m2 = S.palindrome_pair(tp, cls)
+        rb, _ = S.variant_from(m2, list(S.renaming(tp, m2.atoms).items()),
+                               tp.below(1 << 30))
+        return {"src": src, "a": S.shuffled_recipe(tp, m1), "b": rb,
+                "kind": "palindrome"}
     if src == "ring":
         if cls not in ("SMG", "SCRG"):
             cls = "SMG"
-        m1, m2 = S.ring_cis_trans(tp, cls)
+        if tp.chance(50):
+            m1, m2 = S.bis_chelate(tp, cls)
+        else:
+            m1, m2 = S.ring_cis_trans(tp, cls)
         if tp.chance(90):
             # ids whose hashes coincide, on two look-alike neighbours
             probe = S.Tape(bytes(tp.byte() for _ in range(12)))
@@ -128,6 +137,8 @@ def gen(data: bytes):
     case = gen_pair(tp)
     if tp.chance(128):
         case["a"], case["b"] = case["b"], case["a"]
+    if tp.chance(100):
+        case["sibling_use"] = True
     return case
 
 
@@ -185,6 +196,31 @@ def check_case(ctx, case):
     ma, mb = load(case)
     ca, cb = ma.cls, mb.cls
     a, b = rc.build(case["a"]), rc.build(case["b"])
+    if case.get("sibling_use"):
+        # earlier in the same process descriptors of the OTHER classes over
+        # the very same atom tuples were compared (nothing of this may
+        # influence what follows)
+        import stereomolgraph.stereodescriptors as sd
+        fam = {5: ("Tetrahedral", "SquarePlanar"),
+               6: ("TrigonalBipyramidal", "PlanarBond", "AtropBond")}
+        with guard("C02/use-of-sibling-descriptor-classes"):
+            import itertools
+            for *_x, d in list(ma.all_descs()) + list(mb.all_descs()):
+                for name_ in fam.get(len(d[1]), ()):
+                    if name_ == d[0]:
+                        continue
+                    C_ = getattr(sd, name_)
+                    p_ = 0 if name_ in ("SquarePlanar", "PlanarBond") else 1
+                    head, rest = ((d[1][:1], d[1][1:]) if len(d[1]) == 5
+                                  else ((), d[1]))
+                    for q_ in itertools.islice(
+                            itertools.permutations(rest), 120):
+                        t_ = tuple(head) + q_
+                        x_ = C_(t_, p_)
+                        # against another spelling, so that the symmetry
+                        # images are really worked out
+                        x_ == C_(tuple(head) + q_[::-1], p_)   # noqa: B015
+                        hash(x_)
     with guard(f"C02/{ca}-{cb}/eq"):
         e1 = (a == b)
         e2 = (b == a)
